@@ -40,9 +40,17 @@ def slow():
     return 1
 
 
+def make(k):
+    @profile
+    def scaled(v):                # decorated anew on every call of the factory: several code objects under one (file, line, name)
+        w = v * k
+        return w
+    return scaled
+
+
 @profile
 def caller(n):
-    return hot(n) + hot(n // 2) + slow()
+    return hot(n) + hot(n // 2) + slow() + make(2)(n) + make(3)(n) + make(5)(1)
 
 
 print(caller(%d))
